@@ -17,7 +17,7 @@ from ..common import Skip, brief
 ID = "C02"
 CASES = {"quick": 8000, "thorough": 80000}
 FLOOR = {"quick": 6000, "thorough": 60000}
-FLOOR_COUNTERS = {"quick": {"integer_typed_targets": 200, "configured_not_by_constructor": 3000, "non_default_containers": 3000, "integer_typed_inputs": 500, "warm_started_fits": 500, "estimators_with_a_past": 600, "small_unit_fits": 400, "picks_judged": 18000, "ties_at_pick": 500}, "thorough": {"integer_typed_targets": 2500, "configured_not_by_constructor": 30000, "non_default_containers": 30000, "integer_typed_inputs": 5000, "warm_started_fits": 6000, "estimators_with_a_past": 7000, "small_unit_fits": 4000, "picks_judged": 300000, "ties_at_pick": 6000}}
+FLOOR_COUNTERS = {"quick": {"random_starts_from_the_seeded_global_generator": 250, "rejected_calls_in_the_history": 2000, "numpy_scalar_parameters": 1500, "integer_typed_targets": 200, "configured_not_by_constructor": 3000, "non_default_containers": 3000, "integer_typed_inputs": 500, "warm_started_fits": 500, "estimators_with_a_past": 600, "small_unit_fits": 400, "picks_judged": 18000, "ties_at_pick": 500}, "thorough": {"random_starts_from_the_seeded_global_generator": 2500, "rejected_calls_in_the_history": 20000, "numpy_scalar_parameters": 15000, "integer_typed_targets": 2500, "configured_not_by_constructor": 30000, "non_default_containers": 30000, "integer_typed_inputs": 5000, "warm_started_fits": 6000, "estimators_with_a_past": 7000, "small_unit_fits": 4000, "picks_judged": 300000, "ties_at_pick": 6000}}
 RULE = (
     "case = (FPS | PCov-FPS) x (feature | sample), matrix family (gauss, lattice with exact ties, clustered, duplicated, "
     "scaled, low-rank ...), mixing in {0,.1,.5,.9,.999}, initialisation int/'random'/list/ndarray, n_to_select in [len(init), N]; "
@@ -97,6 +97,9 @@ def gen(rng, tier, index):
     spec["clobber"] = bool(rng.random() < 0.5)
     spec["npscalars"] = bool(rng.random() < 0.3)
     spec["reject"] = bool(rng.random() < 0.5)
+    if kw.get("initialize") == "random" and rng.random() < 0.4:
+        spec["global_seed"] = int(kw["random_state"])  # the same stream through np.random.seed and random_state=None
+        kw["random_state"] = None
     if cls == "FPS" and isinstance(kw.get("initialize"), int) and rng.random() < 0.15:
         kw["initialize"] = kw["initialize"] - N  # the same item, counted from the end
     spec["carry"] = gens.pick(rng, forms.CARRY)
@@ -181,7 +184,9 @@ def run(case, j):
         j.ok("initial selections are the requested list", seq[:ninit] == want, (seq, want))
     elif init == "random":
         ninit = 1
-        want = int(np.random.RandomState(kw["random_state"]).randint(N))
+        want = int(np.random.RandomState(kw["random_state"] if spec.get("global_seed") is None else spec["global_seed"]).randint(N))
+        if spec.get("global_seed") is not None:
+            j.note("random_starts_from_the_seeded_global_generator")
         j.ok("'random' start is RandomState(seed).randint(N)", seq[0] == want, (seq[0], want))
         est2, tr2 = _run_one(spec, X, y, j, ":repeat")
         j.ok("'random' start reproducible", [int(v) for v in est2.selected_idx_] == idx)
@@ -237,7 +242,7 @@ def run(case, j):
 
     # --- duality: sample FPS on X == feature FPS on X^T
     if spec["cls"] == "FPS":
-        dual = {"dir": "feature" if spec["dir"] == "sample" else "sample", "cls": "FPS", "kw": dict(kw)}
+        dual = {"dir": "feature" if spec["dir"] == "sample" else "sample", "cls": "FPS", "kw": dict(kw), "global_seed": spec.get("global_seed")}
         est_d, tr_d = _run_one(dual, np.ascontiguousarray(X.T), None, j, ":dual")
         seq_d = [e["idx"] for e in tr_d.commits()]
         for t in range(min(judged_until, len(seq_d))):
